@@ -103,6 +103,12 @@ template <class G> struct State {
   S* ebuf[NE];
   S* tbuf[NT];
   bool own_bufs;
+  // persistent views of the buffers, created once per state (a user keeps a Map around and calls it many times;
+  // shared between threads in C14).  V_FRESH in OpRec::variant asks for a temporary view instead.
+  std::vector<Eigen::Map<G> > vm;
+  std::vector<Eigen::Map<const G> > vc;
+  std::vector<Eigen::Map<T> > tm;
+  std::vector<Eigen::Map<const T> > tc;
 };
 
 // ---------------------------------------------------------------------------
@@ -268,8 +274,8 @@ template <class G> struct Exec {
   template <class A> static void ee_b(St& st, const A& a, const OpRec& op, Out& out) {
     switch (op.kb) {
       case K_OWN: ee(a, st.e[op.b], op, out); break;
-      case K_MAP: { MG m(st.ebuf[op.b]); ee(a, m, op, out); } break;
-      default: { CG m(st.ebuf[op.b]); ee(a, m, op, out); } break;
+      case K_MAP: ee(a, st.vm[op.b], op, out); break;
+      default: ee(a, st.vc[op.b], op, out); break;
     }
   }
 
@@ -288,8 +294,8 @@ template <class G> struct Exec {
   template <class A> static void et_b(St& st, const A& a, const OpRec& op, Out& out) {
     switch (op.kb) {
       case K_OWN: et(a, st.t[op.b], op, out); break;
-      case K_MAP: { MT m(st.tbuf[op.b]); et(a, m, op, out); } break;
-      default: { CT m(st.tbuf[op.b]); et(a, m, op, out); } break;
+      case K_MAP: et(a, st.tm[op.b], op, out); break;
+      default: et(a, st.tc[op.b], op, out); break;
     }
   }
 
@@ -307,6 +313,12 @@ template <class G> struct Exec {
       case OP_TRANSFORM: transform_of(a, out, std::integral_constant<bool, !IsBundle::value>()); break;
       case OP_ROTATION: rotation_of(a, out, HasRotation()); break;
       case OP_COEFFS: put_e(out, a); break;
+      case OP_CONSTRUCT: {   // owning object (and a std::vector of them) built from whatever kind the operand is
+        const G x(a);
+        G y; y = a;
+        std::vector<G, Eigen::aligned_allocator<G> > v; v.push_back(a); v.emplace_back(a);
+        put_e(out, x); put(out.j1, out.n1, y.coeffs()); put(out.j2, out.n2, v[1].coeffs());
+      } break;
       case OP_ACCESSORS: { Collector c(out); if (!Acc<G>::read(a, c)) out.status = 9; } break;
       case OP_DATAPTR: {
         // v[0]: the view reads the user's buffer in place; v[1]: internal sub-views sit at the documented offsets
@@ -352,11 +364,21 @@ template <class G> struct Exec {
       default: out.status = 9;
     }
   }
+  template <class TA, class B> static void tx(const TA& t, const B& x, const OpRec& op, Out& out) {
+    const bool w1 = op.mask & 1, w2 = op.mask & 2;
+    const bool b1 = op.variant & V_BLOCK1, b2 = op.variant & V_BLOCK2;
+    switch (op.op) {
+      case OP_T_RPLUS_X: { JJ j1(w1, b1), j2(w2, b2); put_e(out, t.rplus(x, j1.ref(), j2.ref())); j1.fin(out, 1); j2.fin(out, 2); } break;
+      case OP_T_LPLUS_X: { JJ j1(w1, b1), j2(w2, b2); put_e(out, t.lplus(x, j1.ref(), j2.ref())); j1.fin(out, 1); j2.fin(out, 2); } break;
+      case OP_T_PLUS_X: { JJ j1(w1, b1), j2(w2, b2); put_e(out, t.plus(x, j1.ref(), j2.ref())); j1.fin(out, 1); j2.fin(out, 2); } break;
+      default: put_e(out, t + x); break;
+    }
+  }
   template <class TA> static void tt_b(St& st, const TA& a, const OpRec& op, Out& out) {
     switch (op.kb) {
       case K_OWN: tt(a, st.t[op.b], op, out); break;
-      case K_MAP: { MT m(st.tbuf[op.b]); tt(a, m, op, out); } break;
-      default: { CT m(st.tbuf[op.b]); tt(a, m, op, out); } break;
+      case K_MAP: tt(a, st.tm[op.b], op, out); break;
+      default: tt(a, st.tc[op.b], op, out); break;
     }
   }
   template <class TA> static void tan(St& st, const TA& t, const OpRec& op, Out& out) {
@@ -383,10 +405,14 @@ template <class G> struct Exec {
       } break;
       case OP_JT_MUL: jt_mul(t, out, std::is_same<TA, T>()); break;
       case OP_T_ACCESSORS: { Collector c(out); if (!TAcc<T>::read(t, c)) out.status = 9; } break;   // J*t only instantiates for owning tangents
-      case OP_T_RPLUS_X: { JJ j1(w1, b1), j2(w2, b2); put_e(out, t.rplus(st.e[op.b], j1.ref(), j2.ref())); j1.fin(out, 1); j2.fin(out, 2); } break;
-      case OP_T_LPLUS_X: { JJ j1(w1, b1), j2(w2, b2); put_e(out, t.lplus(st.e[op.b], j1.ref(), j2.ref())); j1.fin(out, 1); j2.fin(out, 2); } break;
-      case OP_T_PLUS_X: { JJ j1(w1, b1), j2(w2, b2); put_e(out, t.plus(st.e[op.b], j1.ref(), j2.ref())); j1.fin(out, 1); j2.fin(out, 2); } break;
-      case OP_T_ADD_X: put_e(out, t + st.e[op.b]); break;
+      case OP_T_RPLUS_X: case OP_T_LPLUS_X: case OP_T_PLUS_X: case OP_T_ADD_X:
+        // these take `const LieGroup&`: a view operand is converted to a temporary owning object by the library
+        switch (op.kb) {
+          case K_OWN: tx(t, st.e[op.b], op, out); break;
+          case K_MAP: tx(t, st.vm[op.b], op, out); break;
+          default: tx(t, st.vc[op.b], op, out); break;
+        }
+        break;
       case OP_INNER: case OP_BRACKET: case OP_TPLUS: case OP_TMINUS: case OP_T_ADD_T: case OP_T_SUB_T:
       case OP_T_ISAPPROX:
         tt_b(st, t, op, out); break;
@@ -441,8 +467,8 @@ template <class G> struct Exec {
       case OP_INTERP_SLERP: case OP_INTERP_CUBIC: case OP_INTERP_SMOOTH:
         switch (op.ka) {
           case K_OWN: interp(st, st.e[op.a], st.e[op.b], op, out); break;
-          case K_MAP: { MG x(st.ebuf[op.a]), y(st.ebuf[op.b]); interp(st, x, y, op, out); } break;
-          default: { CG x(st.ebuf[op.a]), y(st.ebuf[op.b]); interp(st, x, y, op, out); } break;
+          case K_MAP: interp(st, st.vm[op.a], st.vm[op.b], op, out); break;
+          default: interp(st, st.vc[op.a], st.vc[op.b], op, out); break;
         }
         break;
       case OP_AVG_BIINV: case OP_AVG: case OP_AVG_FL: case OP_AVG_FR: {
@@ -510,8 +536,8 @@ template <class G> struct Exec {
       case OP_M_PLUSEQ:
         switch (op.kb) {
           case K_OWN: a += st.t[op.b]; break;
-          case K_MAP: { MT m(st.tbuf[op.b]); a += m; } break;
-          default: { CT m(st.tbuf[op.b]); a += m; } break;
+          case K_MAP: a += st.tm[op.b]; break;
+          default: a += st.tc[op.b]; break;
         }
         put_e(out, a); break;
       case OP_M_ALIAS: {
@@ -533,8 +559,8 @@ template <class G> struct Exec {
       case OP_M_SUBVIEW_WRITE: case OP_M_SETTERS:
         switch (op.kb) {
           case K_OWN: mut_ee(a, st.e[op.b], op, out); break;
-          case K_MAP: { MG m(st.ebuf[op.b]); mut_ee(a, m, op, out); } break;
-          default: { CG m(st.ebuf[op.b]); mut_ee(a, m, op, out); } break;
+          case K_MAP: mut_ee(a, st.vm[op.b], op, out); break;
+          default: mut_ee(a, st.vc[op.b], op, out); break;
         }
         break;
       default: out.status = 9;
@@ -571,8 +597,8 @@ template <class G> struct Exec {
       case OP_TM_LOG_INTO:
         switch (op.kb) {
           case K_OWN: a = st.e[op.b].log(); break;
-          case K_MAP: { MG m(st.ebuf[op.b]); a = m.log(); } break;
-          default: { CG m(st.ebuf[op.b]); a = m.log(); } break;
+          case K_MAP: a = st.vm[op.b].log(); break;
+          default: a = st.vc[op.b].log(); break;
         }
         put_e(out, a); break;
       case OP_TM_STREAM: stream_into(a, st.t[op.b]); put_e(out, a); break;
@@ -580,8 +606,8 @@ template <class G> struct Exec {
       case OP_TM_BLOCKSET:
         switch (op.kb) {
           case K_OWN: mut_tt(a, st.t[op.b], op, out); break;
-          case K_MAP: { MT m(st.tbuf[op.b]); mut_tt(a, m, op, out); } break;
-          default: { CT m(st.tbuf[op.b]); mut_tt(a, m, op, out); } break;
+          case K_MAP: mut_tt(a, st.tm[op.b], op, out); break;
+          default: mut_tt(a, st.tc[op.b], op, out); break;
         }
         break;
       default: out.status = 9;
@@ -602,27 +628,27 @@ template <class G> struct Exec {
       case C_ELEM:
         switch (op.ka) {
           case K_OWN: elem(st, st.e[op.a], op, out); break;
-          case K_MAP: { MG m(st.ebuf[op.a]); const MG& cm = m; elem(st, cm, op, out); } break;
-          default: { CG m(st.ebuf[op.a]); elem(st, m, op, out); } break;
+          case K_MAP: if (op.variant & V_FRESH) { MG m(st.ebuf[op.a]); const MG& cm = m; elem(st, cm, op, out); } else { const MG& cm = st.vm[op.a]; elem(st, cm, op, out); } break;
+          default: if (op.variant & V_FRESH) { CG m(st.ebuf[op.a]); elem(st, m, op, out); } else elem(st, st.vc[op.a], op, out); break;
         }
         break;
       case C_TAN:
         switch (op.ka) {
           case K_OWN: tan(st, st.t[op.a], op, out); break;
-          case K_MAP: { MT m(st.tbuf[op.a]); const MT& cm = m; tan(st, cm, op, out); } break;
-          default: { CT m(st.tbuf[op.a]); tan(st, m, op, out); } break;
+          case K_MAP: if (op.variant & V_FRESH) { MT m(st.tbuf[op.a]); const MT& cm = m; tan(st, cm, op, out); } else { const MT& cm = st.tm[op.a]; tan(st, cm, op, out); } break;
+          default: if (op.variant & V_FRESH) { CT m(st.tbuf[op.a]); tan(st, m, op, out); } else tan(st, st.tc[op.a], op, out); break;
         }
         break;
       case C_STATIC: stat(st, op, out); break;
       case C_ALG: alg(st, op, out); break;
       case C_MUT_E:
         if (op.ka == K_OWN) mut_e(st, st.e[op.a], op, out);
-        else if (op.ka == K_MAP) { MG m(st.ebuf[op.a]); mut_e(st, m, op, out); }
+        else if (op.ka == K_MAP) { if (op.variant & V_FRESH) { MG m(st.ebuf[op.a]); mut_e(st, m, op, out); } else mut_e(st, st.vm[op.a], op, out); }
         else out.status = 9;
         break;
       case C_MUT_T:
         if (op.ka == K_OWN) mut_t(st, st.t[op.a], op, out);
-        else if (op.ka == K_MAP) { MT m(st.tbuf[op.a]); mut_t(st, m, op, out); }
+        else if (op.ka == K_MAP) { if (op.variant & V_FRESH) { MT m(st.tbuf[op.a]); mut_t(st, m, op, out); } else mut_t(st, st.tm[op.a], op, out); }
         else out.status = 9;
         break;
       default: out.status = 9;
@@ -650,6 +676,9 @@ template <class G> struct Exec {
       st->ebuf[i] = ebufs ? static_cast<S*>(ebufs[i]) : static_cast<S*>(Eigen::internal::aligned_malloc(sizeof(S) * Rep));
     for (int i = 0; i < St::NT; ++i)
       st->tbuf[i] = tbufs ? static_cast<S*>(tbufs[i]) : static_cast<S*>(Eigen::internal::aligned_malloc(sizeof(S) * DoF));
+    st->vm.reserve(St::NE); st->vc.reserve(St::NE); st->tm.reserve(St::NT); st->tc.reserve(St::NT);
+    for (int i = 0; i < St::NE; ++i) { st->vm.emplace_back(st->ebuf[i]); st->vc.emplace_back(st->ebuf[i]); }
+    for (int i = 0; i < St::NT; ++i) { st->tm.emplace_back(st->tbuf[i]); st->tc.emplace_back(st->tbuf[i]); }
     // deterministic initial content: identity coefficients / zero tangents / zero points, written raw
     LayoutAcc acc; Layout<G>::fill(acc, 0, 0);
     double idc[Rep > 0 ? Rep : 1];
